@@ -9,6 +9,7 @@ mod c11;
 mod c18;
 mod c19;
 mod prog;
+mod c20;
 mod rng;
 
 use std::collections::HashMap;
@@ -58,6 +59,7 @@ fn main() {
         "failsafe" => c19::main(&args),
         "alusched" => c11::sched_main(&args),
         "shrink" => c02::shrink_main(&args),
+        "gadgets" => c20::main(&args),
         _ => {
             eprintln!("unknown subcommand {cmd}");
             std::process::exit(2);
